@@ -88,15 +88,6 @@ class _Rewrite(ast.NodeTransformer):
     """canonical spellings used by the typer: kwargs['k'] if 'k' in kwargs else None -> kwargs['k'];
     np.cumsum(np.ones_like(..), axis=A)[.astype(int)] -> cumcount(A)"""
 
-    def visit_IfExp(self, n):
-        self.generic_visit(n)
-        t = n.test
-        if isinstance(t, ast.Compare) and len(t.ops) == 1 and isinstance(t.ops[0], ast.In) and isinstance(t.left, ast.Constant) \
-                and isinstance(n.body, ast.Subscript) and isinstance(n.body.slice, ast.Constant) and n.body.slice.value == t.left.value \
-                and dotted(n.body.value) == dotted(t.comparators[0]) and isinstance(n.orelse, ast.Constant) and n.orelse.value is None:
-            return n.body
-        return n
-
     def visit_Call(self, n):
         self.generic_visit(n)
         if isinstance(n.func, ast.Attribute) and n.func.attr == "astype" and isinstance(n.func.value, ast.Call) and dotted(n.func.value.func) == "cumcount":
@@ -192,7 +183,8 @@ def kernel_typing(ck, rule, only=None, note_events=None):
                 if t.kind != "code":
                     ck.bad(rule, k, "the kernel returns an integer code", "returns %r" % t, pf.ret_stmt)
                     continue
-                same, cex = equiv(t.t, want)
+                asg = guard_assignment(pf.guards, rename=ren)
+                same, cex = equiv(t.t.subst(asg), want.subst(asg))
                 if not same:
                     ck.bad(rule, k, "the kernel result is scaled by 2^n_frac, the fraction length its sink stores it with",
                            "result scaled by 2^(%s), sink expects 2^(n_frac)" % t.t.show(), pf.ret_stmt,
